@@ -42,7 +42,7 @@ SET_PROTOS(fs)
 u64 k_fs_insert_hint_r(void*, u64, PV); u64 k_fs_erase_cit(void*, u64); u64 k_fs_erase_if(void*, PV); void k_fs_extract(void*, void*); void k_fs_replace(void*, void*);
 void k_fs_ctor_container(void*, void const*); void k_fs_ctor_sorted(void*, void const*);
 }
-static inline PV nd_pv() { return (PV)vf_nd_u32(); }
+static inline PV nd_pv() { return (PV)lg_nd_payload(); }
 static inline u64 nd_idx(unsigned maxv) { u64 i = vf_nd_u8(); vf_assume(i <= maxv); return i; }
 static inline bool lt(PV a, PV b) { return (int32_t)a < (int32_t)b; }
 extern "C" __attribute__((noinline)) void* d_sym_block(u64 n)
